@@ -297,4 +297,60 @@ class Stores(Suite):
         return msg.split(":")[0] + ":" + msg.split(":")[1].strip().split(" ")[0]
 
 
-SUITES = {"rewrites": Rewrites(), "init-bindings": InitBindings(), "prepared": Prepared(), "stores": Stores()}
+class StoresWithGraphs(Suite):
+    """the same quads in a ConjunctiveGraph over Memory and over AuditableStore(Memory): queries that address named
+    graphs - including one that exists but is EMPTY and one that does not exist - answer alike"""
+    chunk = 2
+
+    DQ = ["SELECT ?s ?p ?o WHERE { GRAPH :g1 { ?s ?p ?o } }", "SELECT ?s ?p ?o WHERE { GRAPH :empty { ?s ?p ?o } }",
+          "ASK { GRAPH :empty { ?s ?p ?o } }", "SELECT ?g ?s WHERE { GRAPH ?g { ?s :p ?o } }",
+          "SELECT ?s ?o WHERE { ?s :p ?o OPTIONAL { GRAPH :empty { ?o :p ?z } } }",
+          "SELECT ?s ?o WHERE { GRAPH :empty { ?s :p+ ?o } }", "SELECT ?s ?p ?o WHERE { GRAPH :nowhere { ?s ?p ?o } }",
+          "SELECT ?s WHERE { GRAPH :g2 { ?s :q ?v } FILTER NOT EXISTS { GRAPH :empty { ?s ?p ?o } } }"]
+
+    def bound(self, tier):
+        return ("8 queries over named graphs (one non-empty, one emptied again, one never created, graph variable, OPTIONAL / "
+                "NOT EXISTS / path inside GRAPH) x data graphs as above split over two named graphs: ConjunctiveGraph over "
+                "Memory vs over AuditableStore(Memory), committed and inside an open transaction")
+
+    def enumerate(self, tier):
+        for qi in range(len(self.DQ)):
+            for gi in range(len(graphs(tier))):
+                yield {"q": qi, "g": gi, "tier": tier}
+
+    def check(self, case):
+        from rdflib import ConjunctiveGraph, URIRef
+        from rdflib.plugins.stores.memory import Memory
+        from rdflib.plugins.stores.auditable import AuditableStore
+        T = graphs(case["tier"])[case["g"]]
+        q = PFX + self.DQ[case["q"]]
+        ref = None
+        for st in ("Memory", "Auditable", "AuditableTx"):
+            with warnings.catch_warnings():
+                warnings.simplefilter("ignore")
+                store = Memory() if st == "Memory" else AuditableStore(Memory())
+                cg = ConjunctiveGraph(store=store)
+                g1, g2, ge = (cg.get_context(URIRef("urn:x:" + n)) for n in ("g1", "g2", "empty"))
+                for i, t in enumerate(T):
+                    (g1 if i % 2 == 0 else g2).add(t)
+                if T:
+                    ge.add(T[0])
+                    ge.remove(T[0])         # exists, but is empty again
+                if st == "Auditable":
+                    cg.commit()
+                try:
+                    r = ms(cg.query(q))
+                except Exception as e:  # noqa
+                    return f"store-raises: {st}: {type(e).__name__}: {e} on {q!r}"
+            if ref is None:
+                ref = r
+            elif r != ref:
+                return f"store-differs: {st} answers {self.DQ[case['q']]!r} over named graphs differently from Memory"
+        return None
+
+    def classify(self, case, msg):
+        return msg.split(":")[0] + ":" + msg.split(":")[1].strip().split(" ")[0]
+
+
+SUITES = {"rewrites": Rewrites(), "init-bindings": InitBindings(), "prepared": Prepared(), "stores": Stores(),
+          "stores-with-graphs": StoresWithGraphs()}
